@@ -108,3 +108,38 @@ Theorem np_rand_Shuffle : forall e,
   0 <= e "size@E1" <= 8 ->
   safe skel_random_genericPRG_Shuffle e.
 Proof. safe_auto. Qed.
+
+(* ---- hash: KMAC framing.  leftEncode / rightEncode scan a 9-byte array with a counter that
+   their loops keep in 1..8 resp. 0..7 (i starts at 1 resp. 0 and is incremented only while
+   i < 8 resp. i < 7); bytepad's padlen = w - len mod w with w = 168.  The model-level
+   theorem C13_kmac_ops_preserve covers the same code with the loops executed. ---- *)
+Definition kmac_counters (e : env) : Prop :=
+  0 <= e "i@L1" /\ 1 <= e "i@E1" <= 8 /\ 0 <= e "padlen:=w - (len(buf) % w)".
+
+Theorem np_hash_NewKMAC_128 : forall e,
+  kmac_counters e -> safe skel_hash_NewKMAC_128 e.
+Proof. unfold kmac_counters. safe_auto. Qed.
+
+Theorem np_NewExpandMsgXOFKMAC128 : forall e,
+  kmac_counters e -> safe skel_NewExpandMsgXOFKMAC128 e.
+Proof. unfold kmac_counters. safe_auto. Qed.
+
+(* k.outputSize was checked to be non-negative by the constructor *)
+Theorem np_hash_kmac_ComputeHash : forall e,
+  0 <= e "i@L1" -> 0 <= e "i@E1" <= 8 -> 0 <= e "k.outputSize" ->
+  safe skel_hash_kmac128_ComputeHash e.
+Proof. safe_auto. Qed.
+
+Theorem np_hash_kmac_SumHash : forall e,
+  0 <= e "i@L1" -> 0 <= e "i@E1" <= 8 -> 0 <= e "k.outputSize" ->
+  safe skel_hash_kmac128_SumHash e.
+Proof. safe_auto. Qed.
+
+(* ---- threshold-signature constructors (they build the KMAC hasher) ---- *)
+Theorem np_thr_NewInspector : forall e,
+  kmac_counters e -> safe skel_NewBLSThresholdSignatureInspector e.
+Proof. unfold kmac_counters. safe_auto. Qed.
+
+Theorem np_thr_NewParticipant : forall e,
+  kmac_counters e -> safe skel_NewBLSThresholdSignatureParticipant e.
+Proof. unfold kmac_counters. safe_auto. Qed.
